@@ -420,6 +420,9 @@ class VectorizedOptimizer(Generic[_S]):
       )
       prior_rewards = eval_score_fn(prior_features)
       prior_rewards = jnp.where(
+          jnp.isnan(prior_rewards), -jnp.inf, prior_rewards
+      )
+      prior_rewards = jnp.where(
           jnp.logical_and(continuous_mask, categorical_mask),
           prior_rewards,
           -jnp.inf * jnp.ones_like(prior_rewards),
@@ -442,6 +445,11 @@ class VectorizedOptimizer(Generic[_S]):
       )
 
       new_rewards = eval_score_fn(new_features)
+      # A NaN score is the worst possible score (top-k selection would otherwise
+      # rank it first).
+      new_rewards = jnp.where(
+          jnp.isnan(new_rewards), -jnp.inf, new_rewards
+      )
       new_state = self.strategy.update(
           update_seed, state, new_features, new_rewards
       )
